@@ -175,7 +175,17 @@ fn statement(t: &mut Tape, out: &mut String, depth: u32, funcs: usize, scope: us
         }
         4 => {
             let verb = *t.pick(&["Say", "Shout", "Whisper", "Scream"]);
-            out.push_str(&format!("{} {}\n", verb, expr(t, 0, funcs)))
+            if t.chance(1, 4) {
+                // text joined with a small number, either way round
+                let n = *t.pick(&["0", "1", "2", "-0", "10", "127", "128", "0.5", "-1", "255", "256"]);
+                if t.chance(1, 2) {
+                    out.push_str(&format!("{} \"n=\" plus {}\n", verb, n))
+                } else {
+                    out.push_str(&format!("{} {} plus \" items\"\n", verb, n))
+                }
+            } else {
+                out.push_str(&format!("{} {}\n", verb, expr(t, 0, funcs)))
+            }
         }
         5 => {
             let ups = ", up".repeat(t.draw(3) as usize);
@@ -350,7 +360,7 @@ pub fn gen_soup(t: &mut Tape) -> Soup {
     let mut input = Vec::new();
     for i in 0..t.draw(4) {
         input.extend_from_slice(
-            format!("{}\n", *t.pick(&["42", "text line", "", "3.5", "ÿ", "true", "7\r", "crlf line\r"]))
+            format!("{}\n", *t.pick(&["42", "text line", "", "3.5", "ÿ", "true", "7\r", "crlf line\r", "\u{feff}41"]))
                 .replace("text line", &format!("text line {}", i))
                 .as_bytes(),
         );
